@@ -169,12 +169,12 @@ theorem C05_oob_then_expire (cfg : Cfg) (s : State) (h : Hnd) (o : Inst) (c : Co
         match s.db o.cls o.id with
         | none => .assertion
         | some row => .val (cfg.dec o.cls c (row c))) := by
-  refine ⟨by simp [opExpire, ho, setObj], by simp [opExpire, ho], ?_, ?_⟩
+  refine ⟨by simp [opExpire, ho, setObj, evictOthers], by simp [opExpire, ho], ?_, ?_⟩
   · intro hcv
-    simp only [opExpire, ho, opRead, setObj, expireInst, if_true, Nat.not_le.mpr hc, if_false, hcv, noCache]
+    simp only [opExpire, ho, opRead, setObj, evictOthers, expireInst, if_true, Nat.not_le.mpr hc, if_false, hcv, noCache]
     cases s.db o.cls o.id <;> simp [applyUpd, plookup]
   · intro hcv
-    simp only [opExpire, ho, opRead, setObj, expireInst, if_true, Nat.not_le.mpr hc, if_false, hcv]
+    simp only [opExpire, ho, opRead, setObj, evictOthers, expireInst, if_true, Nat.not_le.mpr hc, if_false, hcv]
     cases o.obsolete
     · cases s.db o.cls o.id <;> simp
     · simp
@@ -185,7 +185,7 @@ theorem C05_expire_read_reestablishes (cfg : Cfg) (s : State) (h : Hnd) (o : Ins
     (hrow : s.db o.cls o.id = some row) :
     ∃ o', (opRead cfg (opExpire s h).1 h c).1.objs h = some o' ∧
       ValOK cfg (opRead cfg (opExpire s h).1 h c).1.db o' ∧ o'.pending = [] ∧ o'.dirty = false := by
-  simp only [opExpire, ho, opRead, setObj, expireInst, if_true, Nat.not_le.mpr hc, if_false, hcv, noCache, hrow, logStmt]
+  simp only [opExpire, ho, opRead, setObj, evictOthers, expireInst, if_true, Nat.not_le.mpr hc, if_false, hcv, noCache, hrow, logStmt]
   refine ⟨_, rfl, ⟨⟨row, hrow⟩, ?_⟩, rfl, rfl⟩
   intro _ k v row' hr hk
   rw [hrow] at hr; injection hr with hr; subst hr
